@@ -168,14 +168,17 @@ uint64_t next_event_time() {
 // nobody runnable and no future event. Returns true if it made somebody runnable.
 static bool handle_stuck() {
     // past the horizon simulated time no longer advances: a thread that only sleeps is let through (it is not stuck, time is)
-    if (R->horizon_hit)
+    if (R->horizon_hit) {
+        Thread *first = nullptr;   // in the order their sleeps would have ended
         for (auto &t : R->threads)
-            if (t->st == Thread::BLOCKED && t->why == Thread::W_SLEEP) {
-                t->st = Thread::RUNNABLE;
-                t->wake_at = 0;
-                t->timed_out = true;
-                return true;
-            }
+            if (t->st == Thread::BLOCKED && t->why == Thread::W_SLEEP && (!first || t->wake_at < first->wake_at)) first = t.get();
+        if (first) {
+            first->st = Thread::RUNNABLE;
+            first->wake_at = 0;
+            first->timed_out = true;
+            return true;
+        }
+    }
     for (auto &t : R->threads)
         if (t->st == Thread::BLOCKED && t->why == Thread::W_EPOLL) {
             // genuine polling failure injected: ends a loop that can never make progress again
